@@ -25,7 +25,9 @@ class Budget(Exception):
 
 SUBJECTS = [("child", "exit", 0), ("child", "exit", 1), ("child", "exit", 255), ("child", "sig", 1), ("child", "sig", 9),
             ("child", "sig", 15), ("child", "sig", 64), ("child", "sig", 35), ("child", "sig", 63), ("child", "sig", 32),
-            ("other", None, None)]
+            ("other", None, None),
+            # a Process object built on the id of a THREAD of a non-child process (psutil accepts thread ids)
+            ("other-tid", None, None)]
 
 
 def wstatus(kind, v):
@@ -45,6 +47,10 @@ def mk(seed, sub, exit_at, gone_before=False):
     pid = 3100 + seed % 40
     p = w.spawn(pid, ppid=w.mypid if sub[0] == "child" else 1, comm=b"subj", start=900)
     p.is_child = sub[0] == "child"
+    if sub[0] == "other-tid":
+        from vf.simk.world import Thread
+        p.threads = [Thread(pid, b"subj", "S", 1, 1), Thread(pid + 1, b"worker", "S", 1, 1)]
+        w.tids[pid + 1] = p
     use_world(w)
     return w, p
 
@@ -58,7 +64,7 @@ def run_wait(arg):
     if wall_step:
         # the wall clock is stepped (NTP, date -s, VM resume) while the call waits: deadlines are monotonic-time affairs
         w.at(w.mono + wall_step[0], lambda ww: setattr(ww, "btime", ww.btime + wall_step[1]))
-    pr = psutil.Process(p.pid)
+    pr = psutil.Process(p.pid + 1 if sub[0] == "other-tid" else p.pid)
     t0 = w.mono
     if gone_before:
         w.vanish(p.pid)
@@ -135,7 +141,7 @@ def judge_wait(arg, r):
         if timeout is None:
             bad.append(("timeout-without-timeout", repr(out)))
             return bad
-        if info.get("seconds") != timeout or info.get("pid") != 3100 + seed % 40:
+        if info.get("seconds") != timeout or info.get("pid") != 3100 + seed % 40 + (1 if sub[0] == "other-tid" else 0):
             bad.append(("timeout-fields", "TimeoutExpired fields %r for wait(%r)" % (info, timeout)))
         if not (e > timeout - EPS):
             bad.append(("timeout-though-exited-before-deadline", "wait(%r): process exited at %r (< deadline) but TimeoutExpired was raised at %r; trace tail %r"
